@@ -57,7 +57,7 @@ def _ref_of(xkey):
     return dict(version=xkey.version, depth=xkey.depth, fingerprint=xkey.parent_fingerprint, index=xkey.index, chain=xkey.chain_code, key=xkey.key)
 
 
-@contract("btclib.bip32.bip32.derive_", gen=_gen_derive, props="C07", n_quick=250, n_thorough=5000,
+@contract("btclib.bip32.bip32.derive_", gen=_gen_derive, props="C07 C04", both_arms=True, n_quick=250, n_thorough=5000,
           rule="random seeds (128/256/512 bit), every version prefix incl. SLIP132, parents at depth 0..2, private and public parents, paths of 0..4 indexes over the 0 / 2^31-1 / 2^31 / 2^32-1 boundaries")
 class DeriveBounded:
     """key, chain code, depth, index, parent fingerprint are BIP32's; a hardened step from a
